@@ -185,6 +185,12 @@ class HTMLTranslator(html4css1.HTMLTranslator):
 
         return super().starttag(node, tagname, suffix, **attributes)  # type: ignore[no-any-return]
 
+    def footnote_backrefs(self, node: nodes.Node) -> None:
+        # starttag() prefixes the ids of the footnote references with 'rst-':
+        # the links leading back to them are written without it and must agree.
+        node['backrefs'] = [ref if ref.startswith('rst-') else f'rst-{ref}' for ref in node['backrefs']]
+        super().footnote_backrefs(node)
+
     def visit_doctest_block(self, node: nodes.Node) -> None:
         pysrc = node[0].astext()
         if node.get('codeblock'):
